@@ -480,8 +480,7 @@ impl IoLoop {
             },
         );
         // More of a frame that is not complete yet: the peer is getting on with its step,
-        // it is not silent. (Heartbeats are whole frames and leave nothing behind; they
-        // still do not count.)
+        // it is not silent. (Heartbeats still do not count, whole or in pieces.)
         let pending = self.frame_buffer.pending();
         if pending > 0 && pending != pending_before {
             self.handshake_progress += 1;
